@@ -2,12 +2,15 @@
 import json, os, re, sys
 
 class Facts:
-    def __init__(self, path):
+    def __init__(self, path, raw=None):
         self.path = path
-        with open(path) as f:
-            self.raw = json.load(f)
+        if raw is not None:
+            self.raw = raw          # an in-memory variant of already loaded (canonicalised) facts
+        else:
+            with open(path) as f:
+                self.raw = json.load(f)
         self.canon_paths = {}
-        cp = self.raw.get('canon_paths') or []
+        cp = (self.raw.get('canon_paths') or []) if raw is None else []
         if cp:
             # items are named by the shortest path through which they can be named from the crate root, so that moving an
             # item into a sub-module (and re-exporting / importing it under its old name) changes nothing for the rules
